@@ -1108,6 +1108,16 @@ class SocketAsyncRPCClient(_SocketClientState, BaseAsyncRPCClient):
         self._pending[call_id] = _PendingCall(call, future)
         try:
             await _send_stream_message(self._writer, call_id, request)
+        except asyncio.CancelledError:
+            # The only suspension point of the send is `drain()`,
+            # which comes after the message was handed to the transport:
+            # the request of a caller cancelled there (e.g. by `asyncio.timeout`) is on its way
+            # and the server answers it.
+            # The entry stays, with a cancelled future, so the receive loop discards that response
+            # like the one of any other cancelled caller, instead of failing on an unknown call id
+            # and taking every other call of this client down with it.
+            future.cancel()
+            raise
         except BaseException:
             # A request that was not sent gets no response, so this future is never awaited.
             # It must not be left behind for the receive loop to fail,
